@@ -435,6 +435,8 @@ FOREIGN_GENERATORS = {
     "Util/GenUtil.v": ("C19", "props/C19/util_tie.py", "regen_util_constants"),
     "C08/GenC08.v": ("C08", "props/C08/check.py", "regen_c08_constants"),
     "C10/GenC10.v": ("C10", "props/C10/check.py", "regen_genc10"),
+    # owner included (ALWAYS): C01's own run() regenerates only after the first prepare_proofs
+    "C01/GenC01.v": ("*", "props/C01/genc01.py", "regen_genc01"),
 }
 
 
@@ -458,7 +460,7 @@ def prepare_proofs(ctx):
                 if gen_v in clo and owner != ctx.prop:
                     try:
                         import importlib.util as _il
-                        spec = _il.spec_from_file_location("gen_" + owner + "_" + fn, os.path.join(VERIF, mod_rel))
+                        spec = _il.spec_from_file_location("gen_" + owner.replace("*", "any") + "_" + fn, os.path.join(VERIF, mod_rel))
                         m = _il.module_from_spec(spec); spec.loader.exec_module(m)
                         r = getattr(m, fn)()
                         if isinstance(r, tuple) and len(r) == 2 and r[1]:
